@@ -677,6 +677,10 @@ func packagePrepareWalkFn(root string, ignoreRules *ignorefiles.Ruleset) filepat
 			if err != nil {
 				return fmt.Errorf("failed to remove ignored file %s: %s", relPath, err)
 			}
+			if info.IsDir() {
+				// The directory is gone, so there is nothing below it to visit.
+				return filepath.SkipDir
+			}
 			return nil
 		}
 
